@@ -52,7 +52,10 @@ class SimThread:
         self.exc = None
         self.exc_tb = None
         self.harness_exc = False
-        self.owner = owner
+        # no strong reference to the Thread object: a finished worker must be
+        # collectable while the run goes on (its finaliser is part of the
+        # behaviour under test)
+        self.owner = None
         self.nsteps = 0
 
     def __repr__(self):
